@@ -88,7 +88,10 @@ def render(tree: Tree, rng: random.Random = None, hostile: float = 0.0, upper: f
         r = rng.random()
         if r >= hostile:
             return " " if force else ""
-        k = rng.randrange(6)
+        k = rng.randrange(7)
+        if k == 6:
+            # a comment glued to the preceding token: it starts at the ';' character, not at a blank
+            return rng.choice(_COMMENTS) + nl
         if k == 0:
             return "  "
         if k == 1:
